@@ -489,6 +489,8 @@ class Verifier(Stmts):
                     normal.assume(self.predicate_term(con, vals, normal), decision=True)
             if isinstance(result, V) and result.ty.kind != 'any' and not st.spec:
                 self.assume_valid(result, normal)
+            if not st.spec and con.modifies_:
+                self.resolve_stream_fields(normal, len(pre.pc))
             normal.old = st.old
             if st.spec:
                 outs.append((normal, result))
@@ -682,6 +684,45 @@ class Verifier(Stmts):
         ts = [self.term(vals[n], None, st) for n in names]
         f = self.uf(con.uf_name, *([t.sort() for t in ts] + [to_sort(rty, self.reg)]))
         return V(f(*ts), rty)
+
+    def resolve_stream_fields(self, st, first_new):
+        """after a callee's post-conditions were assumed: a stream field that was havoced and is now stated EQUAL to a term
+        over the pre-state (`f.data == d0`, `f.pos == p0 + ...`) is replaced by that term, so that later slices are
+        normalised syntactically instead of through an equation (same value by the assumed fact)"""
+        eqs = []
+        for c in st.pc[first_new:]:
+            for d in (c.children() if z3.is_and(c) else [c]):
+                if z3.is_eq(d):
+                    eqs.append((d.arg(0), d.arg(1)))
+                    eqs.append((d.arg(1), d.arg(0)))
+        if not eqs:
+            return
+        for loc, h in st.heap.items():
+            if h.kind != 'stream':
+                continue
+            for fld in ('data', 'pos'):
+                cur = h.fields[fld].t
+                if not (z3.is_const(cur) and cur.decl().kind() == z3.Z3_OP_UNINTERPRETED):
+                    continue
+                for a, b in eqs:
+                    if a.eq(cur) and not self._mentions(b, cur):
+                        h.fields[fld] = V(b, h.fields[fld].ty)
+                        break
+
+    @staticmethod
+    def _mentions(e, c):
+        todo = [e]
+        seen = set()
+        while todo:
+            x = todo.pop()
+            if x.get_id() in seen:
+                continue
+            seen.add(x.get_id())
+            if x.eq(c):
+                return True
+            if z3.is_app(x):
+                todo.extend(x.children())
+        return False
 
     def havoc_paths(self, con, st, env):
         for path in con.modifies_:
